@@ -437,15 +437,16 @@ func (te *tmplEnv) callFunc(name string, args []tval) (tval, bool) {
 		te.fail("unknown function value for " + name)
 		return tval{}, false
 	}
-	if len(args) != len(cl.fn.Params) {
-		te.fail("arity of " + name)
+	sigp := cl.fn.Signature.Params()
+	if len(args) != sigp.Len() {
+		te.fail(fmt.Sprintf("arity of %s: %d args, %s has %d params", name, len(args), cl.fn.String(), sigp.Len()))
 		return tval{}, false
 	}
 	var ts []*Term
 	for i, a := range args {
-		if typeKey(a.T) != typeKey(cl.fn.Params[i].Type()) {
+		if typeKey(a.T) != typeKey(sigp.At(i).Type()) {
 			// assignable named/unnamed types with equal representation are accepted
-			if e.tr.sortOf(a.T) != e.tr.sortOf(cl.fn.Params[i].Type()) {
+			if e.tr.sortOf(a.T) != e.tr.sortOf(sigp.At(i).Type()) {
 				te.fail("argument type of " + name)
 				return tval{}, false
 			}
